@@ -140,6 +140,29 @@ type Ctx struct {
 	inQuant     int
 	byteMems    map[string]bool // A2 symbols holding byte memories: every cell is in [0,255]
 	byteArrs    map[string]bool // A1 symbols holding bytes
+	frameWrites map[string]bool // heap keys written at refs that are not fresh allocations
+	freshRefs   map[string]bool
+	frameCallee []string
+	variantAt   map[int]string
+}
+
+// frameWrite records a write to heap key `key` at object `ref` for the frame check.
+func (c *Ctx) frameWrite(key, ref string) {
+	if c.freshRefs[ref] || strings.HasPrefix(ref, "(sub.") && c.freshRefs[innerRef(ref)] {
+		return
+	}
+	c.frameWrites[key] = true
+}
+
+func innerRef(ref string) string {
+	for strings.HasPrefix(ref, "(sub.") {
+		i := strings.Index(ref, " ")
+		if i < 0 {
+			return ref
+		}
+		ref = strings.TrimSuffix(ref[i+1:], ")")
+	}
+	return ref
 }
 
 type inlineFrame struct {
@@ -209,6 +232,12 @@ func shortFile(f string) string {
 
 // oblige records a proof obligation: under s.assumes, goal must hold.
 func (c *Ctx) oblige(s *State, kind, exprText string, pos token.Pos, goal string, tags []string) {
+	// execution continues past a run-time check or a call only if the checked condition held
+	switch {
+	case kind == "index", kind == "slice", kind == "nil", kind == "div", kind == "make", kind == "assert-type", kind == "nilmap", kind == "ovf",
+		strings.HasPrefix(kind, "pre:"):
+		defer s.assume(goal)
+	}
 	if c.dry > 0 || s.dead {
 		return
 	}
@@ -233,7 +262,7 @@ func typeKey(t types.Type) string {
 // leaves returns the leaf paths of a type when stored in the heap (each leaf is an Int).
 func leaves(t types.Type) []string {
 	switch u := t.Underlying().(type) {
-	case *types.Slice:
+	case *types.Slice, *types.Array:
 		return []string{"#ref", "#off", "#len", "#cap"}
 	case *types.Struct:
 		var out []string
@@ -309,7 +338,7 @@ func rangeFact(t types.Type, term string) string {
 // flatten a value of type t into Int leaf terms (order of leaves(t)).
 func flatten(v Value, t types.Type) []string {
 	switch u := t.Underlying().(type) {
-	case *types.Slice:
+	case *types.Slice, *types.Array:
 		sv, ok := v.(SliceV)
 		if !ok {
 			panic(fmt.Sprintf("flatten: slice type %s got %T", t, v))
@@ -350,7 +379,7 @@ func flatten(v Value, t types.Type) []string {
 
 func unflatten(ts []string, t types.Type) (Value, []string) {
 	switch u := t.Underlying().(type) {
-	case *types.Slice:
+	case *types.Slice, *types.Array:
 		return SliceV{ts[0], ts[1], ts[2], ts[3]}, ts[4:]
 	case *types.Struct:
 		st := StructV{F: map[string]Value{}}
@@ -376,7 +405,7 @@ func unflatten(ts []string, t types.Type) (Value, []string) {
 
 func zeroValue(t types.Type) Value {
 	switch u := t.Underlying().(type) {
-	case *types.Slice:
+	case *types.Slice, *types.Array:
 		return nilSlice
 	case *types.Struct:
 		st := StructV{F: map[string]Value{}}
@@ -398,7 +427,7 @@ func zeroValue(t types.Type) Value {
 // freshValue creates an unconstrained value of type t (with type range facts assumed in s).
 func (c *Ctx) freshValue(s *State, name string, t types.Type) Value {
 	switch u := t.Underlying().(type) {
-	case *types.Slice:
+	case *types.Slice, *types.Array:
 		sv := SliceV{c.fresh(name+"#ref", sInt), c.fresh(name+"#off", sInt), c.fresh(name+"#len", sInt), c.fresh(name+"#cap", sInt)}
 		s.assume(c.sliceWF(sv))
 		return sv
@@ -440,7 +469,7 @@ func (c *Ctx) assumeTyped(s *State, v Value, t types.Type) {
 		return // terms mention bound variables; byte ranges come from the per-memory axioms
 	}
 	switch u := t.Underlying().(type) {
-	case *types.Slice:
+	case *types.Slice, *types.Array:
 		s.assume(c.sliceWF(v.(SliceV)))
 	case *types.Struct:
 		st := v.(StructV)
@@ -561,6 +590,7 @@ func (c *Ctx) readField(s *State, ref string, st types.Type, f *types.Var) Value
 }
 
 func (c *Ctx) writeField(s *State, ref string, st types.Type, f *types.Var, v Value) {
+	c.frameWrite(fieldKey(st, f.Name()), ref)
 	if c.isStructByValueField(f) {
 		c.storePtr(s, c.subObject(s, ref, st, f), f.Type(), v)
 		return
@@ -590,6 +620,7 @@ func (c *Ctx) readElem(s *State, sv SliceV, idx string, elem types.Type) Value {
 }
 
 func (c *Ctx) writeElem(s *State, sv SliceV, idx string, elem types.Type, v Value) {
+	c.frameWrite(memKey(elem), sv.Ref)
 	ls := leaves(elem)
 	ts := flatten(v, elem)
 	for i, l := range ls {
@@ -628,6 +659,7 @@ func (c *Ctx) allocSlice(s *State, elem types.Type, length, capacity string, zer
 
 // freshRefFacts: a freshly allocated ref differs from every ref-valued entry variable.
 func (c *Ctx) freshRefFacts(s *State, ref string) {
+	c.freshRefs[ref] = true
 	if c.entry == nil {
 		return
 	}
